@@ -15,7 +15,7 @@ from ..symx import Expander
 from ..anf import R, Unsupported
 from .. import anf, units
 from ..units import Lin, Log, Tup, TOP, BOOL, num
-from .common import struct_ob, formula_ob, guard, last_return
+from .common import struct_ob, formula_ob, guard, last_return, U
 from ..report import AnalysisError, Ob
 
 REL = "inference/pdf/kde.py"
@@ -97,7 +97,7 @@ def run(prog, tier):
             norm = anf.subst(norm, {a: N for a in norm.all_atoms() if a[0] == "sym" and a[1].startswith("size(")})
             got = got * norm if isinstance(got, R) else None
             want = anf.sum_(anf.exp_(-(dx * dx) / (2 * h * h)) / (N * h * anf.sqrt_(2 * anf.PI)), is_arr, R.sym("n_kept"), "ax1")
-            aug = [s for s in fn.body if isinstance(s, ast.AugAssign) and ast.unparse(s) == "pdf *= self.norm"]
+            aug = [s for s in fn.body if isinstance(s, ast.AugAssign) and U(s) == "pdf *= self.norm"]
             o = formula_ob("kernel-form", qual(ci, fn), got, want, REL, fn.lineno,
                            what="density = sum over kept samples of exp(-(x-s)^2 / 2h^2) / (N h sqrt(2 pi))")
             if o.ok and len(aug) != 1:
@@ -111,7 +111,7 @@ def run(prog, tier):
                                   what="cdf = sum over kept samples of (1 + erf((x-s)/(sqrt2 h))) / 2N + (samples dropped below)/N"))
 
     # ---------------------------------------------------------------- region tables
-    txt = ast.unparse(init)
+    txt = U(init)
     c1 = ("lwr_inds = searchsorted(self.sample, mids - self.cutoff)" in txt
           and "upr_inds = searchsorted(self.sample, mids + self.cutoff)" in txt
           and "self.slices = [slice(l, u) for l, u in zip(lwr_inds, upr_inds)]" in txt
@@ -122,14 +122,14 @@ def run(prog, tier):
     c2 = ("mids = linspace(self.sample[0], self.sample[-1], 2 ** n + 1)" in txt and "mids = 0.5 * (mids[1:] + mids[:-1])" in txt
           and "self.tree = BinaryTree(n, (self.sample[0], self.sample[-1]))" in txt)
     bt = prog.cls("BinaryTree")
-    btxt = ast.unparse(bt.methods["__init__"])
+    btxt = U(bt.methods["__init__"])
     c2 = c2 and "self.edges = linspace(limits[0], limits[1], 2 ** self.n + 1)" in btxt and "self.n = layers" in btxt
     obs.append(struct_ob("region-tables", qual(ci, init) + "[mids]", c2,
                          "region mid-points must be the mid-points of the very edges the tree uses (same end points, 2**n + 1 edges)",
                          REL, init.lineno))
     both = []
     for mname in ("__call__", "cdf"):
-        t = ast.unparse(ci.methods[mname])
+        t = U(ci.methods[mname])
         both.append("regions, index_groups = self.tree.region_groups(x)" in t and "self.sample[None, self.slices[r]]" in t
                     and "for r, g in zip(regions, index_groups)" in t and "x[g, None]" in t)
     obs.append(struct_ob("region-tables", f"{ci.module.name}.GaussianKDE[pdf/cdf siblings]", all(both),
@@ -140,7 +140,7 @@ def run(prog, tier):
     anf.reset()
     ex = Expander(prog, ci.module, ci)
     ex.opaque_self_attrs = {"h", "sample"}
-    src = {ast.unparse(s.targets[0]): s.value for s in ast.walk(init) if isinstance(s, ast.Assign) and len(s.targets) == 1}
+    src = {U(s.targets[0]): s.value for s in ast.walk(init) if isinstance(s, ast.Assign) and len(s.targets) == 1}
     ok, why = False, ""
     try:
         cutoff = ex.eval(src["self.cutoff"], {})
